@@ -20,6 +20,7 @@ THEOREMS = [
     "c11_parse_render", "c11_exactly_one_terminal", "c11_failure_only_synthesised", "c11_success_passthrough",
     "c11_json_body_messages", "c11_sse_body_messages", "c11_no_id_for_notification", "c11_failures_independent",
     "c11_every_request_processed", "c11_session_header_latest", "c11_repeated_failures",
+    "c11_batch_invalid_member_skipped",
 ]
 # not stated by the property text (Props/C11Supp.lean): reported as INFO, never a verdict
 SUPP_THEOREMS = [
@@ -129,6 +130,8 @@ def oracle(case, obs):
         return ("client-crashed", f"http_client raised {obs['crash']}", {"fence": True})
     if case.get("leave_at") is not None:
         return oracle_close(case, obs)
+    if case.get("close_rd_after") is not None:
+        return None   # the caller stopped listening: nothing is observable any more, only "does not raise / hang on exit"
     if obs.get("round2") is not None:
         r2 = oracle(case, dict(obs["round2"], round2=None))
         if r2 is not None:
@@ -346,7 +349,8 @@ class Hardening(_Base):
             "defensive handlers 120/127-128/330-333/431-432/453-454, the streaming SSE branch 352-391 (dead: httpx responses always "
             "have .text) and the pending-future branch 473-480 (dead: the unified message class always has a `method` attribute); "
             "the hard/* buckets of the distribution name the sweep classes")
-        return G.decorate(G.hardening(ctx.sub_rng("c11-hard", budget), budget), salt=7) + G.hardening2(ctx.sub_rng("c11-hard2", budget), budget)
+        return G.decorate(G.hardening(ctx.sub_rng("c11-hard", budget), budget), salt=7) + G.hardening2(ctx.sub_rng("c11-hard2", budget), budget) \
+            + G.hardening3(ctx.sub_rng("c11-hard3", budget), budget)
 
     def kind(self, case, o):
         return "hard/" + case.get("hk", "?") + ("/debug-logging" if case.get("debug") else "")
